@@ -82,7 +82,9 @@ fn check_polytope(c: &Case, plain: &ConvexCell<WithoutFaces>, cell: &ConvexCell<
             return Err(format!("cell {i}: vertex {k} is not finite"));
         }
         if kappas[k] <= 1e3 {
-            let tolv = 64. * eps * kappas[k] + snap;
+            // (the displacement of a plane under the snapping of a close pair is amplified by the
+            // conditioning of the vertex just like the rounding error is)
+            let tolv = kappas[k] * (64. * eps + snap);
             for &p in &v.dual {
                 let pl = &cell.clipping_planes[p].plane;
                 let off = pl.n.dot(v.loc - pl.p).abs();
@@ -173,7 +175,7 @@ fn check_polytope(c: &Case, plain: &ConvexCell<WithoutFaces>, cell: &ConvexCell<
         if well && m >= 3 {
             let n_in = plane.n;
             let mut cross_sum = DVec3::ZERO;
-            let tolp = 64. * eps * kmax + snap;
+            let tolp = kmax * (64. * eps + snap);
             let mut perimeter = 0.;
             for q in 0..m {
                 let (a, b, cc) = (cell.vertices[vs[q]].loc, cell.vertices[vs[(q + 1) % m]].loc, cell.vertices[vs[(q + 2) % m]].loc);
